@@ -101,6 +101,18 @@ def bits2f(b):
     return struct.unpack("<d", struct.pack("<Q", int(b)))[0]
 
 
+def cdm_snapshot(m):
+    """every attribute of the object by introspection: arrays as (dtype-agnostic) filled-prefix bytes, scalars as ints"""
+    out = {}
+    cur = int(m.current_index)
+    for key, v in sorted(vars(m).items()):
+        if isinstance(v, np.ndarray):
+            out[key] = np.asarray(v[:cur], dtype=float).tobytes()
+        else:
+            out[key] = int(v)
+    return out
+
+
 class Tie:
     """driver lines queued during the run, compared at the end"""
 
@@ -152,9 +164,12 @@ def case_partition(dc, case, res, tie=None, rng=None, budget_big=60):
         cs = sorted(set([0, 1, k - 1, k - 2] + [rng.randrange(k) for _ in range(budget_big // 10)]))
         cs = [c for c in cs if 0 <= c < k]
     chunks = {}
+    npi = bool(case.get("np_int"))
     for c in cs:
         try:
-            chunks[c] = dc.get_lower_triangular_indices_chunk(n, c, k)
+            chunks[c] = dc.get_lower_triangular_indices_chunk(np.int64(n), np.int64(c), np.int64(k)) if npi else \
+                dc.get_lower_triangular_indices_chunk(n, c, k)
+            chunks[c] = [(int(a_), int(b_)) for a_, b_ in chunks[c]]
         except Exception as e:  # noqa
             chunks[c] = "err:" + type(e).__name__
     if any(isinstance(v, str) for v in chunks.values()):
@@ -194,16 +209,26 @@ def case_assembly(dc, case, res, tmp, tie=None, tie_calc=False):
     """case: n, n_chunks, zmod, order (chunk indices, every index at least once), dropped (index or None)"""
     n, k, z, order = case["n"], case["n_chunks"], case["zmod"], case["order"]
     thetas = StubThetas(n)
+    metric = StubMetric(z)           # class object-reuse: ONE metric object and ONE holder serve every chunk and the single-chunk run
+    npi = bool(case.get("np_int"))   # class layout/dtype: chunk_index / n_chunks arrive as np.int64 (argparse gives int, a workflow driver may not)
     files = {}
     for c in range(k):
         try:
-            m = dc.calculate_pairwise_distance_matrix_on_predictions(thetas, StubMetric(z), None, c, k)
+            m = dc.calculate_pairwise_distance_matrix_on_predictions(thetas, metric, None, np.int64(c) if npi else c, np.int64(k) if npi else k)
         except Exception as e:
             res.fail("chunk computation raises", dict(case, chunk=c), type(e).__name__, "no exception")
             return
         fn = os.path.join(tmp, "a_%d.h5" % c)
         m.save(fn)
         files[c] = fn
+        # class attribute-completeness: whatever attributes the object has (introspection), load(save(m)) has the same ones with the
+        # same filled prefix; chunk_size is storage capacity, not content
+        back = dc.ChunkedDistanceMatrix.load(fn)
+        sa, sb = cdm_snapshot(m), cdm_snapshot(back)
+        sa.pop("chunk_size", None), sb.pop("chunk_size", None)
+        if sa != sb:
+            res.fail("load(save(m)) differs from m in some attribute", dict(case, chunk=c),
+                     sorted(k_ for k_ in set(sa) | set(sb) if sa.get(k_) != sb.get(k_)), "every attribute equal on the filled prefix")
         if tie is not None and tie_calc:
             tie.add("calc %d %d %d %d" % (n, c, k, z), show_cdm(m), ("calc", n, c, k, z))
     if case.get("share"):          # the SAME loaded object for every repetition of a chunk index (object reuse inside concat)
@@ -213,6 +238,7 @@ def case_assembly(dc, case, res, tmp, tie=None, tie_calc=False):
         loaded = [dc.ChunkedDistanceMatrix.load(files[c]) for c in order]
     nonempty = [c for c in range(k) if dc.ChunkedDistanceMatrix.load(files[c]).current_index > 0]
     try:
+        before = [cdm_snapshot(m) for m in loaded] if len(loaded) > 1 else None
         cat = dc.ChunkedDistanceMatrix.concat(loaded)
         if not cat.is_complete():
             res.fail("assembly of all chunks is not complete", case, {"entries": int(cat.current_index)}, "is_complete() is True")
@@ -229,9 +255,19 @@ def case_assembly(dc, case, res, tmp, tie=None, tie_calc=False):
             res.fail("assembled matrix differs from the metric matrix", case, dense.tolist(), want.tolist())
         elif not np.array_equal(dense, dense.T) or np.any(np.diag(dense) != 0):
             res.fail("assembled matrix not symmetric / zero-diagonal", case, dense.tolist(), "symmetric, zero diagonal")
-        single = dc.calculate_pairwise_distance_matrix_on_predictions(thetas, StubMetric(z), None, 0, 1).to_dense()
+        single = dc.calculate_pairwise_distance_matrix_on_predictions(thetas, metric, None, 0, 1).to_dense()
         if not np.array_equal(single, dense):
             res.fail("assembled matrix differs from single-chunk computation", case, dense.tolist(), single.tolist())
+        if before is not None and not case.get("big"):
+            # class input-mutation / aliasing: concat leaves the matrices it was given as they were; a second concat of the same objects
+            # in reverse order neither raises nor disturbs the first result
+            if [cdm_snapshot(m) for m in loaded] != before:
+                res.fail("concat changes the matrices it is given", case, "an input matrix changed", "inputs unchanged")
+            dense_copy = dense.copy()
+            again = dc.ChunkedDistanceMatrix.concat(loaded[::-1]).to_dense()
+            if not (np.array_equal(again, dense_copy) and np.array_equal(cat.to_dense(), dense_copy) and np.array_equal(dense, dense_copy)):
+                res.fail("a second concat of the same objects (reverse order) gives another matrix or disturbs the first result", case,
+                         again.tolist(), dense_copy.tolist())
         if tie is not None:
             tie.add("dense " + "/".join(cdm_arg(m) for m in loaded), show_dense_int(dense, n), ("dense", n, k, z, order))
             tie.add("assemble %d %d %d %s" % (n, k, z, int_list(order)), show_dense_int(dense, n), ("assemble", n, k, z, order))
@@ -399,6 +435,27 @@ def case_cli(dc, case, res, tmp, tie=None):
             res.fail("CLI calculate_distance_matrix raises", dict(case, chunk=c), "%s: %s" % (type(e).__name__, e), "chunk file written")
             return
         outs[c] = out
+    # class cross-process determinism: the same chunks computed by the CLI in OTHER interpreter processes with different PYTHONHASHSEEDs
+    # (every chunk is its own process in the workflow) must be the files computed here, bit for bit
+    if case.get("xproc") and case.get("sigmoid") is None:
+        import subprocess
+        for c in range(k):
+            out2 = os.path.join(tmp, "x%d.h5" % c)
+            argv = ["calculate_distance_matrix", "--distance-metric", "MSEDistance", "--n-chunks", str(k), "--chunk-index", str(c),
+                    "--data", data_fn, "--thetas"] + theta_fns + ["--output", out2]
+            code = ("import sys; sys.path.insert(0, %r); sys.argv = %r; "
+                    "from batchie.cli import calculate_distance_matrix as m; m.main()") % (os.path.join(common.REPO, "src"), argv)
+            p = subprocess.run([sys.executable, "-c", code], env=dict(os.environ, PYTHONHASHSEED=str(101 + 7 * c)),
+                               stdout=subprocess.PIPE, stderr=subprocess.PIPE, text=True, timeout=300)
+            if p.returncode != 0:
+                res.fail("CLI calculate_distance_matrix fails in a separate process", dict(case, chunk=c), p.stderr[-300:], "chunk file written")
+                return
+            ma, mb = dc.ChunkedDistanceMatrix.load(outs[c]), dc.ChunkedDistanceMatrix.load(out2)
+            sa, sb = cdm_snapshot(ma), cdm_snapshot(mb)
+            if sa != sb:
+                res.fail("a chunk computed in another process (other PYTHONHASHSEED) differs from the one computed here", dict(case, chunk=c),
+                         sorted(k_ for k_ in sa if sa.get(k_) != sb.get(k_)), "bit-equal chunk files")
+            os.unlink(out2)
     # direct reference: MSE on predict_viability of the reloaded inputs
     with contextlib.redirect_stdout(io.StringIO()):
         screen = Screen.load_h5(data_fn)
@@ -446,6 +503,9 @@ def case_cli(dc, case, res, tmp, tie=None):
     return nonempty
 
 
+_SHARED_METRIC = {}
+
+
 def case_metric(case, res, tie=None):
     from scipy.special import expit
     from batchie.distance.mse import MSEDistance
@@ -455,11 +515,22 @@ def case_metric(case, res, tie=None):
         base = np.empty(2 * len(a), dtype=float)
         base[0::2], base[1::2] = a, b
         a, b = base[0::2], base[1::2]
+    elif layout == "negstride":    # reversed views (negative stride)
+        a, b = a[::-1].copy()[::-1], b[::-1].copy()[::-1]
     elif layout == "readonly":
         a.flags.writeable = False
         b.flags.writeable = False
     a0, b0 = a.copy(), b.copy()
-    m = MSEDistance(sigmoid=sig)
+    # class object-reuse: ONE metric object per sigmoid setting serves every case of the run (vectors of different lengths);
+    # its answers must be those of a fresh object
+    m = _SHARED_METRIC.setdefault(bool(sig), MSEDistance(sigmoid=sig))
+    try:
+        fresh = MSEDistance(sigmoid=sig).distance(a0.copy(), b0.copy())
+        if m.distance(a, b) != fresh:
+            res.fail("a metric object that was used before gives another distance than a fresh one", case, None, float(fresh))
+    except Exception as e:  # noqa
+        res.fail("metric raises", case, "%s: %s" % (type(e).__name__, e), "a distance")
+        return
     try:
         dab, dba, daa = m.distance(a, b), m.distance(b, a), m.distance(a, a)
         dac = m.distance(a, a0)        # identical predictions held in two different arrays
@@ -513,6 +584,39 @@ SMALL_HANDBUILT = [
 ]
 
 
+def count_assembly_classes(res, case):
+    n, k, order = case["n"], case["n_chunks"], case["order"]
+    N = n * (n - 1) // 2
+    size = lambda c: (N // k) + (1 if c < N % k else 0)      # noqa: E731
+    res.count("class.object-reuse")                           # one metric + holder object for all chunks
+    if len(order) > 1:
+        res.count("class.input-mutation")                     # snapshots of the loaded matrices around concat + second concat
+    res.count("class.attribute-completeness")
+    if case.get("np_int"):
+        res.count("class.layout-dtype")
+    if k > N:
+        res.count("class.size-boundaries")                    # more chunks than pairs
+        if N > 0 and size(order[0]) == 0:
+            res.count("class.falsy-boundaries")               # empty chunk first: it is the accumulator when the first entries arrive
+            res.count("assembly.empty_chunk_first")
+    if n >= 11:
+        res.count("class.size-boundaries")
+    if case["zmod"] == 1 or n <= 1:
+        res.count("class.falsy-boundaries")                   # all distances exactly 0 / n in {0, 1}
+    # class row-orderings: some chunk starts in the middle of a row of the lower triangle
+    start, mid = 0, False
+    for c in range(k):
+        if size(c) > 0:
+            i = 0
+            while (i + 1) * i // 2 <= start:
+                i += 1
+            if start != i * (i - 1) // 2:
+                mid = True
+        start += size(c)
+    if mid:
+        res.count("class.row-orderings")
+
+
 def gen_assembly(rng):
     n = rng.choice([0, 1, 2, 3, 3, 4, 4, 5, 5, 6, 7, 8, 9])
     N = n * (n - 1) // 2
@@ -531,7 +635,7 @@ def gen_assembly(rng):
     ne = [c for c in range(k) if (N // k) + (1 if c < N % k else 0) > 0]
     drop = rng.choice(ne) if ne else None
     return {"kind": "assembly", "n": n, "n_chunks": k, "zmod": z, "order": order, "dropped": drop,
-            "share": bool(reps) and rng.random() < 0.5}, bool(reps)
+            "share": bool(reps) and rng.random() < 0.5, "np_int": rng.random() < 0.3}, bool(reps)
 
 
 def gen_handbuilt(rng):
@@ -587,7 +691,12 @@ def run(ctx, res):
         res.count("partition.n_le_14" if n <= 14 else "partition.n_gt_14")
         if k > N:
             res.count("partition.more_chunks_than_pairs")
-        case_partition(dc, {"kind": "partition", "n": n, "n_chunks": k}, res, tie, rng, budget_big)
+        npi = (n + k) % 3 == 0
+        if npi:
+            res.count("class.layout-dtype")
+        if k > N:
+            res.count("class.size-boundaries")
+        case_partition(dc, {"kind": "partition", "n": n, "n_chunks": k, "np_int": npi}, res, tie, rng, budget_big)
     # malformed stream: errors on both sides
     # (.., -1, 2), (.., -2, 3): negative start -> islice ValueError; (3, -3, -2): start 3, end 2 -> negative islice count
     for (n, c, k) in [(3, 0, 0), (3, 3, 3), (3, 5, 2), (4, -1, 0), (0, 0, 1), (1, 0, 1), (2, 0, 5), (3, -1, 2), (5, -2, 3), (3, -3, -2),
@@ -614,8 +723,24 @@ def run(ctx, res):
             if nonempty is not None and nonempty >= 2:
                 res.nontrivial.add(("asm", case["n"], case["n_chunks"], case["zmod"], tuple(case["order"])))
             res.count("assembly.repeats" if has_reps else "assembly.norepeats")
+            count_assembly_classes(res, case)
             if len(res.samples) < 3:
                 res.sample(case)
+        # ---------- B1a. class falsy-boundaries: more chunks than pairs, EVERY order of the chunk files (so also every order in which
+        #             an empty chunk is the accumulator when the first non-empty one arrives), exactly-zero distances ---------------
+        import itertools
+        prng = ctx.subrng("perm")
+        perm_cases = [(2, 3, list(o)) for o in itertools.permutations(range(3))] + [(3, 4, list(o)) for o in itertools.permutations(range(4))]
+        allp5 = [list(o) for o in itertools.permutations(range(5)) if o[0] >= 3]          # n=3, k=5: chunks 3 and 4 are empty
+        perm_cases += [(3, 5, o) for o in prng.sample(allp5, ctx.scale(12, 48))]
+        perm_cases += [(1, 2, [1, 0]), (0, 3, [2, 0, 1]), (2, 2, [1, 0]), (2, 2, [1, 1, 0])]
+        for (n_, k_, order_) in perm_cases:
+            case = {"kind": "assembly", "n": n_, "n_chunks": k_, "zmod": prng.choice([0, 1, 2]), "order": order_ + ([order_[0]] if prng.random() < 0.3 else []),
+                    "dropped": None, "share": prng.random() < 0.3, "np_int": prng.random() < 0.3}
+            res.evaluations += 1
+            case_assembly(dc, case, res, tmp, tie)
+            res.count("assembly.all_orders")
+            count_assembly_classes(res, case)
         # ---------- B1b. many samples, one chunk: indices above 255 survive save/load (oracle only: the model's
         #             list-based to_dense is quadratic in the number of pairs) ------------------------------------------
         for n_big in ctx.scale([300], [300, 520], [300]):
@@ -698,6 +823,17 @@ def run(ctx, res):
                 res.nontrivial.add(("cli", case["seed"]))
             if t == 0:
                 res.sample(case)
+            if case["partial"]:
+                res.count("class.row-orderings")       # observed rows between unobserved rows, plates interleaved
+            if case["dup"]:
+                res.count("class.falsy-boundaries")    # real distances exactly 0.0
+            if case["share"]:
+                res.count("class.object-reuse")
+        for t in range(ctx.scale(1, 3, 1)):
+            case = dict(gen_cli(rng), n=4, n_chunks=2, order=[1, 0, 1], split=1 + t, sigmoid=None, xproc=True)
+            res.evaluations += 1
+            case_cli(dc, case, res, tmp, tie)
+            res.count("class.cross-process")
         # ---------- C. metric laws on the real MSEDistance -------------------------------
         rng = ctx.subrng("mse")
         nprng = np.random.default_rng(rng.randrange(2 ** 32))
@@ -718,9 +854,15 @@ def run(ctx, res):
                 b = a.copy()
             elif shape == "integers":
                 a, b = np.round(a), np.round(b)
-            layout = rng.choice([None, None, "strided", "readonly"])
+            layout = rng.choice([None, None, "strided", "readonly", "negstride"])
             res.count("metric.shape.%s" % shape)
             res.count("metric.layout.%s" % layout)
+            res.count("class.object-reuse", 2)
+            res.count("class.input-mutation", 2)
+            if layout:
+                res.count("class.layout-dtype", 2)
+            if shape == "equal":
+                res.count("class.falsy-boundaries", 2)      # distance exactly 0.0
             for sig in (True, False):
                 res.evaluations += 1
                 case_metric({"kind": "metric", "a": a.tolist(), "b": b.tolist(), "sigmoid": sig, "layout": layout}, res, tie if t < 200 else None)
